@@ -92,6 +92,8 @@ type verifScn struct {
 	closed   bool
 	notifying int // request whose result/error the harness is delivering (-1: none)
 	parkUsed bool
+	used     int
+	stalled  []chan struct{} // senders blocked in a slow transport write
 	mainRunning bool
 	parked   []chan struct{}
 	closedByScenario bool
@@ -154,6 +156,7 @@ func (h *verifScn) rpcError(k int) {
 // released by the harness goroutine once everything else has come to rest (testing/synctest
 // allows only one waiter at a time).
 func (h *verifScn) settle() {
+	h.release() // a stalled transport write gets going again when something happens
 	if h.mainRunning {
 		h.mainSettle()
 		return
@@ -161,6 +164,13 @@ func (h *verifScn) settle() {
 	w := make(chan struct{})
 	h.parked = append(h.parked, w)
 	<-w
+}
+
+func (h *verifScn) release() {
+	for _, w := range h.stalled {
+		close(w)
+	}
+	h.stalled = nil
 }
 
 func (h *verifScn) mainSettle() {
@@ -181,11 +191,15 @@ func (h *verifScn) inject(where string) {
 	if h.budget == 0 || h.depth > 1 {
 		return
 	}
+	if h.used >= 2 && where != "idle" {
+		return // a third event (thorough tier) is placed at quiescent points only
+	}
 	a := verifrt.Fork("act@"+where, 10)
 	if a == 0 {
 		return
 	}
 	h.budget--
+	h.used++
 	h.depth++
 	defer func() { h.depth-- }()
 	switch a {
@@ -227,6 +241,7 @@ func (h *verifScn) inject(where string) {
 			h.mainSettle()
 		} else {
 			h.budget++
+			h.used--
 		}
 	case 8:
 		for k := 0; k < 2; k++ {
@@ -261,7 +276,9 @@ func verifScenario(budget int, explore int) *verifScn {
 		// has come to rest (at most once per scenario, free of charge)
 		if !h.parkUsed && !h.mainRunning && verifrt.Fork("park@send"+string(rune('0'+k)), 2) == 1 {
 			h.parkUsed = true
-			h.settle()
+			w := make(chan struct{})
+			h.stalled = append(h.stalled, w)
+			<-w // released when the harness next waits for quiescence after an event
 		}
 		h.inject("send" + string(rune('0'+k)))
 		if err := ctx.Err(); err != nil {
@@ -305,10 +322,14 @@ func verifScenario(budget int, explore int) *verifScn {
 
 // finish: close the engine (if the scenario did not) so that every call must come back.
 func (h *verifScn) finish() {
+	// first let a stalled transport write (and whatever it triggers) run to quiescence
+	h.release()
+	h.mainSettle()
 	if !h.closed {
 		h.closed = true
 		go h.e.ForceClose()
 	}
+	h.release()
 	h.mainSettle()
 }
 
